@@ -258,7 +258,9 @@ func Exhaustive(n int, rng *rand.Rand, emit func(*Scn)) {
 }
 
 var textPool = []string{"a", "b", " ", "é", "é", "世", "😀", "👩‍🚀", "🇯🇵", "☺️", "́", "‍", "ก", "ำ", "각", "ᄀ", "ᅡ", "ᆨ",
-	"�", "~", " ", "🏳️‍🌈", "👍🏽", "x"}
+	"�", "~", " ", "🏳️‍🌈", "👍🏽", "x",
+	// Prepend characters (join with whatever follows), invalid bytes, truncated and overlong forms
+	"\u0600", "\u06dd", "\U000110bd", "\xdc", "\xff", "\xe2\x82", "\xc0\xaf", "\xed\xa0\x80", "\xf4\x90\x80\x80"}
 
 func randNum(rng *rand.Rand) string {
 	switch rng.Intn(6) {
